@@ -2,7 +2,7 @@ package main
 
 // C07, TIME, second part: input FAMILIES on which the scan time of the GenBank reader is NOT
 // proportional to the input (findings K7D … K7H, found with the cost-counting reading of the model,
-// Gts/Lemmas/GbCost.lean, and by measurement; K7D and K7E are repaired — a4b3f5d / F38, 2612fae / F39 — and
+// Gts/Lemmas/GbCost.lean, and by measurement; K7D, K7E and K7F are repaired — a4b3f5d / F38, 2612fae / F39, 8a8d8a1 / F40 — and
 // their families stay as regression tests).
 //
 // Every family is generated in two sizes, n and 4n (input sizes in the ratio 1:4), and judged by the
@@ -55,8 +55,10 @@ var c07TimeFamilies = []timeFamily{
 		return []byte(famHead + famFeat + "     gene            1..2\n" + ind + "/note=\"a\n" +
 			strings.Repeat(ind+"a\n", n) + ind + "a\"\n" + famTail)
 	}},
-	// K7F: a key line with join(1,3,5,…) of n points: LocationList.Push walks to the end of its list
-	{"join-of-points", "K7F", 2000, func(n int) []byte {
+	// F40 (was K7F, repaired by 8a8d8a1: no finding any more): a key line with join(1,3,5,…) of n points:
+	// Join pushed every part at the head of its LocationList (Push walks to the end first) and
+	// LocationList.Slice copied the tail once per cell; both walk the list once now
+	{"join-of-points", "", 4000, func(n int) []byte { // 4000: the repaired scan of 2000 points takes 2 ms, near the 1 ms below which nothing is compared
 		var b bytes.Buffer
 		b.WriteString(famHead + famFeat + "     gene            join(1")
 		for i := 1; i < n; i++ {
